@@ -1,0 +1,24 @@
+//go:build verif
+// +build verif
+
+// Constructors for the unexported staking-trie types, used by the C14 (RLP) verification driver under /verif.
+// Nothing here is compiled into a normal build.
+
+package state
+
+import "github.com/youchainhq/go-youchain/common"
+
+// VerifRlpNewPendingRelationship returns a fresh decode target, built the way loadPendingRelationship builds it.
+func VerifRlpNewPendingRelationship() interface{} { return newPendingRelationship() }
+
+// VerifRlpPendingRelationship builds a pendingRelationship from (delegator, validator) pairs through Add.
+func VerifRlpPendingRelationship(pairs [][2]common.Address) interface{} {
+	p := newPendingRelationship()
+	for _, dv := range pairs {
+		p.Add(dv[0], dv[1])
+	}
+	return p
+}
+
+// VerifRlpStakingRecord wraps a Record into the unexported stakingRecord (whose EncodeRLP writes the trie value).
+func VerifRlpStakingRecord(r Record) interface{} { return &stakingRecord{record: r} }
